@@ -216,6 +216,30 @@ def build_corruptions():
                 corr("fmt:unknown-arg-with-predicates", ["Debug"], "#[debug(%s(T: ::core::clone::Clone))] pub struct S<T>(T);" % bad)
                 corr("fmt:unknown-arg-with-predicates", ["Debug"], "#[debug(%s(T: ::core::clone::Clone))] pub enum E<T> { A(T), B }" % bad)
                 corr("fmt:unknown-arg-with-predicates", ["Display"], "#[display(%s(T: ::core::clone::Clone))] pub struct S<T>(T);" % bad)
+            # a struct-level as_ref/as_mut attribute next to ANY attribute on its field, `skip`/`ignore` included
+            for tr, at in (("AsRef", "as_ref"), ("AsMut", "as_mut")):
+                for fa in ("skip", "ignore", "forward", "i32"):
+                    corr("as_ref:struct-and-field", [tr], "#[%s(forward)] pub struct S(#[%s(%s)] Vec<i32>);" % (at, at, fa))
+                    corr("as_ref:struct-and-field", [tr], "#[%s([i32])] pub struct S { #[%s(%s)] a: Vec<i32> }" % (at, at, fa))
+            # an invalid field attribute stays invalid inside an ignored variant / next to ignored fields
+            for bad in ("definitely_unknown", "source, source", "source = true", "not(ignore)", "\"x\""):
+                corr("error:bad-field-attr-in-ignored-variant", ["Error"], "pub enum E { #[error(ignore)] A(#[error(%s)] i32), B }" % bad)
+                corr("error:bad-field-attr-in-ignored-variant", ["Error"], "pub enum E { #[error(ignore)] A { #[error(%s)] x: i32 }, B(i32) }" % bad)
+                corr("error:bad-field-attr", ["Error"], "pub enum E { A(#[error(%s)] i32), B }" % bad)
+                corr("error:bad-field-attr", ["Error"], "#[error(ignore)] pub struct S { #[error(%s)] x: i32 }" % bad)
+            for bad in ("definitely_unknown", "ignore, ignore", "ignore = true", "\"x\""):
+                corr("try_into:bad-field-attr-in-ignored-variant", ["TryInto"], "pub enum E { #[try_into(ignore)] A(#[try_into(%s)] i32), B(u8) }" % bad)
+                corr("try_into:bad-field-attr", ["TryInto"], "pub enum E { A(#[try_into(%s)] i32), B(u8) }" % bad)
+            # contradictions inside one attribute
+            for bad in ("source, not(source)", "not(source), source", "backtrace, not(backtrace)", "not(source, source)", "ignore, ignore", "source, backtrace, source"):
+                corr("error:contradiction-in-one-attr", ["Error"], "pub struct S { #[error(%s)] a: i32, b: u8 }" % bad)
+                corr("error:contradiction-in-one-attr", ["Error"], "pub enum E { A { #[error(%s)] a: i32 }, B }" % bad)
+            for tr, at, pre, post in (("Deref", "deref", "pub struct S { ", " a: Box<i32>, b: u8 }"), ("IntoIterator", "into_iterator", "pub struct S { ", " a: Vec<u8>, b: u8 }"),
+                                      ("Unwrap", "unwrap", "pub enum E { ", " A(i32), B }"), ("TryInto", "try_into", "pub enum E { ", " A(i32), B(u8) }")):
+                for bad in {"deref": ("forward, forward", "ignore, ignore"), "into_iterator": ("ignore, ignore",), "unwrap": ("ignore, ignore", "ref, ref"), "try_into": ("ignore, ignore",)}[at]:
+                    corr("params:repeated-in-one-attr", [tr], "%s#[%s(%s)]%s" % (pre, at, bad, post))
+            corr("params:repeated-in-one-attr", ["TryInto"], "#[try_into(owned, ref, owned)] pub enum E { A(i32), B(u8) }")
+            corr("params:repeated-in-one-attr", ["IntoIterator"], "#[into_iterator(ref, ref)] pub struct S(Vec<u8>);")
             # arguments that only fields take, on the item or on a variant
             for bad in ("source", "backtrace", "not(source)", "not(backtrace)"):
                 corr("error:field-arg-on-item", ["Error"], "#[error(%s)] pub struct S { a: i32 }" % bad)
